@@ -219,10 +219,15 @@ class C17(Property):
         opts += [(3, "play")]
       opts += [(1, "play_bad")]
       nrec = sum(1 for op in script if op[0] == "record")
+      nloop = sum(1 for sp in specs if sp["kind"] == "rec")
       if nrec < 2:
         opts += [(1, "record")]
       if nrec and W.chance("rectake", 1, 2):
         opts += [(1, "rec_take"), (1, "rec_stop")]
+      if nloop and W.chance("loopstop", 1, 2):
+        # RecStream.stop() on an input stream that a player loops to the
+        # output: the player then runs out of audio and ends by itself
+        opts += [(2, "loop_stop")]
       op = W.weighted("op", opts)
       if op == "play":
         new_player()
@@ -239,6 +244,8 @@ class C17(Property):
         script.append(["rec_take", W.span("rn", 1, 6), W.choose("which", nrec)])
       elif op == "rec_stop":
         script.append(["rec_stop", W.choose("which", nrec)])
+      elif op == "loop_stop":
+        script.append(["loop_stop", W.choose("whichloop", nloop)])
       else:
         i = W.choose("who", len(specs))
         script.append([op, i])
@@ -528,7 +535,12 @@ class C17(Property):
         return failing(iter(vals), obs["at"])
       if spec["kind"] == "rec":
         # input device looped to the output through the real RecStream
-        return ctl["aio"].record(chunk_size=spec["len"], dfmt=spec["dfmt"])
+        lrec = ctl["aio"].record(chunk_size=spec["len"], dfmt=spec["dfmt"])
+        ctl.setdefault("loop_rec", []).append(lrec)
+        # the fake input device stream behind this recording
+        ctl.setdefault("loop_in", {})[p] = \
+          [st for st in world.streams if st.is_input][-1]
+        return lrec
       if spec["kind"] == "list":
         vals = audio_values(p, spec)
         wrap = spec.get("wrap")
@@ -640,6 +652,11 @@ class C17(Property):
           if which < len(ctl["rec"]) and which not in stopped:
             got = ctl["rec"][which].take(op[1])
             outcome.setdefault("rec_taken", []).extend(got)
+        elif name == "loop_stop":
+          loops = ctl.get("loop_rec", [])
+          if op[1] < len(loops):
+            loops[op[1]].stop()
+            res.counters["probe.looped-recording-stopped"] += 1
         elif name == "rec_stop":
           # the user stops a recording without reading it to its end
           which = op[1] if len(op) > 1 else 0
@@ -927,7 +944,13 @@ class C17(Property):
                       nframes * dev_ch * SIZEOF[dev_fmt]))
         decoded.extend(struct.unpack("%d%s" % (per, fmt), data))
       nwr = len(st.writes)
-      if spec["kind"] in ("periodic", "rec"):
+      if spec["kind"] == "rec" and p in ctl.get("loop_in", {}):
+        # the iterable is what the input device has delivered (a recording
+        # that was stopped ends; the last chunk is then padded with zeros)
+        whole = None
+        avail = audio_values(p, spec, ctl["loop_in"][p].reads * spec["len"])
+        expect = (avail + [0] * ((-len(avail)) % per))[:len(decoded)]
+      elif spec["kind"] in ("periodic", "rec"):
         whole = None
         expect = audio_values(p, spec, len(decoded))
       else:
